@@ -15,12 +15,21 @@ import shutil
 
 from hypothesis import strategies as st
 
-from ..core import Info, Violation, expect_raises, lib_frames, matcher, require, subcheck
+from ..core import Info, Reject, Violation, expect_raises, lib_frames, matcher, require, subcheck
 from ..gen import dyadic
 from .. import trainctl as T
 from .c15 import config as c15_config, _check_domain
 
-EPOCH_FMTS = ("default", "default", "custom", "subdir")
+
+EPOCH_FMTS = ("default", "default", "custom", "subdir", "info")
+
+# A format that applies a format specification to an entry other than the epoch (e.g. "{lr:.3e}") makes the first
+# update raise TypeError in keep_last_and_best_only mode: the paths of "epoch 0" are formatted although its learning
+# rate is None (fixes/C16-format-spec-on-unset-entry.diff, replays/C16/format-spec-on-unset-entry.json). Until the patch
+# is merged the class stays out of the generators and such cases are rejected; VERIF_C16_INFO_SPEC_FMT=1 switches it on.
+ENABLE_INFO_SPEC_FMT = os.environ.get("VERIF_C16_INFO_SPEC_FMT") == "1"
+if ENABLE_INFO_SPEC_FMT:
+    EPOCH_FMTS = EPOCH_FMTS + ("info_spec",)
 
 
 # ---------------------------------------------------------------- uninterrupted run + crash-free invariants
@@ -51,9 +60,9 @@ def _load_epoch(ctl, cfg, epoch, scramble):
 
 
 def _load_best_model(ctl, cfg, scramble):
-    m, _ = T.new_model_opt(cfg, scramble)
+    m, o = T.new_model_opt(cfg, scramble)
     ctl.load_model_for_epoch(m)
-    return {"tag": m.tag.item(), "w": m.w.detach().tolist()}
+    return T.model_part(T.snapshot(m, o))
 
 
 def _uninterrupted(cfg, root, check_dir=True):
@@ -70,7 +79,7 @@ def _uninterrupted(cfg, root, check_dir=True):
             cont = s.epoch(cfg["train"][i], cfg["val"][i])
         e = i + 1
         rec = {"events": inj.events[n0:], "cont": cont, "csv": s.csv_bytes(), "snap": T.snapshot(s.model, s.opt),
-               "files": s.files(), "info": dict(s.ctl.get_info(e))}
+               "files": s.files(), "info": T.canon_info(s.ctl.get_info(e))}
         base.append(rec)
         if check_dir:
             vals = cfg["val"][:e]
@@ -126,7 +135,14 @@ def _which_epoch(states, snap):
     return me, oe
 
 
-def _recover_and_verify(cfg, root, base, e, states, salt=1):
+def _sample_epochs(L, best):
+    """Epochs whose files are loaded when everything is kept and the history is long (stated sampling)."""
+    if L <= 40:
+        return list(range(1, L + 1))
+    return sorted({1, 2, L // 2, best, L - 2, L - 1, L} - {0})
+
+
+def _recover_and_verify(cfg, root, base, e, states, salt=1, sample=False):
     """Everything the statement promises about a controller started after a crash in update ``e``.
 
     ``states[j]`` is the (model, optimizer) state that the update which recorded epoch j had in hand, i.e. "the
@@ -145,7 +161,7 @@ def _recover_and_verify(cfg, root, base, e, states, salt=1):
     if L not in (e - 1, e):
         raise _Fail("history_prefix", "recovered history ends at an unexpected epoch", L, [e - 1, e])
     for j in range(1, L + 1):
-        got = dict(ctl.get_info(j))
+        got = T.canon_info(ctl.get_info(j))
         if got != base[j - 1]["info"]:
             raise _Fail("history_prefix", "recovered entry of epoch %d differs from the uninterrupted run" % j, got,
                         base[j - 1]["info"])
@@ -172,7 +188,7 @@ def _recover_and_verify(cfg, root, base, e, states, salt=1):
         raise _Fail("load_best", "best epoch of the recovered history", b, exp_b)
     if b >= 1:
         got = _lib("load_best", lambda: _load_best_model(ctl, cfg, 12), best=b)
-        exp = {"tag": states[b]["tag"], "w": states[b]["w"]}
+        exp = T.model_part(states[b])
         if got != exp:
             raise _Fail("load_best", "model loaded for the best epoch is not the model saved for it", got, exp, best=b)
         got = _lib("load_best", lambda: _load_epoch(ctl, cfg, b, 13), best=b)
@@ -202,10 +218,12 @@ def _recover_and_verify(cfg, root, base, e, states, salt=1):
     vals = cfg["val"][:L]
     if T.FMTS[cfg["fmt"]][2]:
         epochs = range(1, L + 1) if not cfg["keep"] else sorted({L, T.best_epoch(vals)})
+        if sample and not cfg["keep"]:
+            epochs = _sample_epochs(L, T.best_epoch(vals))
     else:
         epochs = [L]
     for j in epochs:
-        got = _lib("final_load", lambda: _load_epoch(ctl2, cfg, j, 20 + j), epoch_loaded=j)
+        got = _lib("final_load", lambda: _load_epoch(ctl2, cfg, j, 20 + j % 64), epoch_loaded=j)
         if got != states[j]:
             raise _Fail("final_load", "state of epoch %d after the continued run" % j, got, states[j], epoch_loaded=j)
 
@@ -222,8 +240,8 @@ def _replay_until(cfg, root, e):
     return s, states
 
 
-def _crash_point(cfg, root, base, e, k, when):
-    s, states = _replay_until(cfg, root, e)
+def _crash_point(cfg, root, base, e, k, when, prepare=_replay_until, sample=False):
+    s, states = prepare(cfg, root, e)
     inj = T.FaultInjector(k, when)
     try:
         with inj.installed():
@@ -235,15 +253,18 @@ def _crash_point(cfg, root, base, e, k, when):
     if inj.events != base[e - 1]["events"][: k + 1]:
         raise RuntimeError("harness: event sequence not reproducible: %r vs %r" % (inj.events, base[e - 1]["events"]))
     states[e] = T.snapshot(s.model, s.opt)   # what the dying update was about to save / had saved
-    known = set()
-    for j in range(1, e + 1):
-        known |= set(T.ckpt_names(cfg, j))
     left = s.files()
-    stray = any(f not in known for f in left)   # reported in the evidence, not judged
+    if len(left) <= 16:
+        known = set()
+        for j in range(1, e + 1):
+            known |= set(T.ckpt_names(cfg, j))
+        stray = any(f not in known for f in left)   # reported in the evidence, not judged
+    else:
+        stray = any(os.path.basename(f).startswith("tmp") for f in left)
     del s
     done = inj.events[: k + (1 if when == "after" else 0)]
     try:
-        _recover_and_verify(cfg, root, base, e, states)
+        _recover_and_verify(cfg, root, base, e, states, sample=sample)
     except _Fail as f:
         rec = dict(f.rec, epoch=e, k=k, when=when, done=["%s:%s" % tuple(x) for x in done])
         return rec, stray
@@ -285,7 +306,8 @@ def _enumerate(cfg, second=None):
 
 
 def _verdict(cfg, failures, stats):
-    classes = ["fmt_" + cfg["fmt"], "keep_last_and_best" if cfg["keep"] else "keep_everything"]
+    classes = ["fmt_" + cfg["fmt"], "keep_last_and_best" if cfg["keep"] else "keep_everything",
+               "model_" + cfg.get("model", "plain"), "metrics_" + cfg.get("scale", "unit")]
     classes += ["crash_points_x10"] * (stats["points"] // 10)
     classes += ["crash_left_temporary_file_x10"] * (stats["strays"] // 10)   # observed, not judged
     base = stats["base"]
@@ -316,8 +338,14 @@ def _verdict(cfg, failures, stats):
     return Info(nontrivial=stats["interior_with_delete"] > 0, classes=classes)
 
 
+def _domain(case):
+    if case.get("fmt") == "info_spec" and not ENABLE_INFO_SPEC_FMT:
+        raise Reject("format specification on a non-epoch entry: class switched off (see ENABLE_INFO_SPEC_FMT)")
+    return _check_domain(case)
+
+
 def _crash_check(case):
-    _check_domain(case)
+    _domain(case)
     failures, stats = _enumerate(case)
     return _verdict(case, failures, stats)
 
@@ -341,16 +369,17 @@ subcheck("C16", "crash_keep_last_and_best", _keep_best_strategy, quick=36, thoro
          doc="generated history (<= 5|6 epochs, parameters as C15, formats with the epoch field, keep_last_and_best_only); "
              "EVERY mutating call of EVERY update is a crash point (before and after): prefix history, last and best "
              "load the saved states, continuing gives the uninterrupted CSV and final state",
-         required_classes=["interior_crash_with_delete", "history_file_created"], timeout_s=6000)(_crash_check)
+         required_classes=["interior_crash_with_delete", "history_file_created", "model_strided", "model_f64buf", "fmt_info"],
+         timeout_s=6000)(_crash_check)
 
 subcheck("C16", "crash_keep_everything", _keep_all_strategy, quick=36, thorough=800,
          doc="the same with keep_last_and_best_only=False: additionally every recorded epoch loads after the continued run",
-         required_classes=["history_file_created"], timeout_s=6000)(_crash_check)
+         required_classes=["history_file_created", "model_strided", "model_f64buf", "fmt_info"], timeout_s=6000)(_crash_check)
 
 
 @st.composite
 def _noepoch_case(draw, tier):
-    cfg = draw(c15_config(4 if tier == "quick" else 6, fmts=("noepoch",), keep=True))
+    cfg = draw(c15_config(4 if tier == "quick" else 6, fmts=("noepoch",), keep=True, scales=("unit",)))
     n = len(cfg["val"])
     # strictly improving validation metric: otherwise the controller (by design) refuses to overwrite the best
     steps = draw(st.lists(st.sampled_from([0.25, 0.5, 1.0]), min_size=n, max_size=n))
@@ -392,6 +421,254 @@ subcheck("C16", "crash_enum_small", _enum_small, 0, 0, exhaustive=True,
          required_classes=["interior_crash_with_delete"], timeout_s=6000)(_crash_check)
 
 
+# ---------------------------------------------------------------- crashes late in a long history
+
+_LATE_SMALL = (8, 9, 10, 14, 15, 16, 30, 31, 32, 62, 63, 64, 98, 99, 100, 126, 127, 128, 254, 255, 256)
+_LATE_LARGE = (998, 999, 1000, 1022, 1023, 1024)
+
+
+def _long_params(draw, n):
+    """Parameters of a long history that runs to its end (no early stopping, no epoch budget); rates stay printable."""
+    eps = draw(st.sampled_from([-8, -1, 0]))
+    rlr_pat = draw(st.sampled_from([1, 2, 3, 10, 17]))
+    rlr_cool = draw(st.sampled_from([0, 1, 2, 11]))
+    if eps == -8:
+        lr_exp = 16
+        need = -(-n // 22)
+        if rlr_pat + rlr_cool < need:
+            rlr_cool = need - rlr_pat
+    else:
+        lr_exp = draw(st.integers(1, 16))
+    q = draw(st.sampled_from([0.25, 1.0]))
+    hi = 3999 if q == 0.25 else 99999
+    lens = sorted({1, 2, 3, 20, 50, 120, max(1, rlr_pat - 1), rlr_pat, rlr_pat + 1})
+    segs = draw(st.lists(st.tuples(st.integers(0, 5), st.sampled_from(lens), st.integers(0, 9)), min_size=1, max_size=6))
+    return {
+        "q": q, "start": draw(st.one_of(st.integers(0, hi), st.integers(0, 64), st.integers(hi - 64, hi))),
+        "segs": [list(x) for x in segs],
+        "num_epochs": None, "es_thr": 0.0, "es_pat": 1, "es_burn": 0,
+        "rlr_thr": draw(st.sampled_from([0, 1, 2, 8])) * q, "rlr_pat": rlr_pat, "rlr_burn": draw(st.integers(0, 2)),
+        "rlr_cool": rlr_cool, "factor": 0.5, "eps": eps, "lr_mode": "opt", "lr_exp": lr_exp,
+        "groups": draw(st.sampled_from([1, 2])), "model": draw(st.sampled_from(["plain", "strided", "f64buf"])),
+        "fmt": draw(st.sampled_from(["default", "default", "custom", "subdir"])),
+    }
+
+
+def _mix(cfg, salt):
+    return salt + cfg["start"] + cfg["rlr_pat"] * 17 + cfg["rlr_cool"] * 19 + sum(31 * a + 7 * b + c for a, b, c in cfg["segs"])
+
+
+def _expand_with_tail(cfg):
+    """History of cfg["n"] epochs (trainctl.expand_history); the last len(cfg["tail"]) validation metrics are then
+    overridden: 1 = a new best (one tick below everything so far), 2 = equal to the best so far, 3 = worse than
+    everything so far, 0 = as expanded. Pure function of the case."""
+    val, train = T.expand_history(cfg)
+    q = cfg["q"]
+    hi = (3999 if q == 0.25 else 99999) * q
+    n = cfg["n"]
+    for k, mode in enumerate(cfg.get("tail", [])):
+        i = n - len(cfg["tail"]) + k
+        if i <= 0 or mode == 0:
+            continue
+        lo_v, hi_v = min(val[:i]), max(val[:i])
+        if mode == 1:
+            val[i] = max(0.0, lo_v - q)
+        elif mode == 2:
+            val[i] = lo_v
+        else:
+            val[i] = min(hi, hi_v + q)
+    return val, train
+
+
+@st.composite
+def _late_case(draw, tier):
+    large = _LATE_LARGE if tier == "quick" else _LATE_LARGE + (2046, 2047, 2048)
+    cfg = _long_params(draw, 2100)
+    # keep mode and prefix length are functions of everything drawn so far (see c15 long_history: Hypothesis re-uses
+    # prefixes of earlier examples, which in a small budget would repeat one choice many times)
+    mix = _mix(cfg, draw(st.integers(0, 10 ** 6)))
+    cfg["keep"] = mix % 3 != 0
+    is_large = (mix // 3) % 3 == 0
+    pool = large if (is_large and cfg["keep"]) else _LATE_SMALL
+    if not cfg["keep"] and tier == "quick":
+        pool = tuple(x for x in _LATE_SMALL if x <= 128)
+    prefix = pool[(mix // 9) % len(pool)]
+    cfg["n"] = prefix + 2
+    cfg["tail"] = [draw(st.integers(0, 3)), draw(st.integers(0, 3))]
+    return cfg
+
+
+@subcheck("C16", "crash_late_epoch", lambda tier: _late_case(tier), quick=12, thorough=400,
+          doc="a crash-free prefix of 8..256 or 998..1024 (thorough: ..2048) epochs - the sizes around 10, 16, 32, 64, 100, "
+              "128, 256, 1000, 1024, where epoch numbers gain a digit - expanded deterministically from <= 6 generated "
+              "segments, then EVERY mutating call of the next two updates is a crash point (before each call and after the last "
+              "one: every intermediate state of the files once). The prefix is "
+              "run once; each crash point starts from a copy of the files as they were before the update (a script restarted "
+              "on them loads the last state, which is checked). Same oracle as the other crash sub-checks; when everything "
+              "is kept only a sample of epochs is loaded after the continued run (1, 2, the middle, the best, the last three)",
+          required_classes=["prefix_ge_998", "prefix_le_16", "interior_crash_with_delete"], timeout_s=6000)
+def _late_check(case):
+    cfg = dict(case)
+    cfg["val"], cfg["train"] = _expand_with_tail(case)
+    _domain(cfg)
+    n = cfg["n"]
+    prefix = n - 2
+    failures = []
+    points = interior_with_delete = strays = 0
+    with T.scratch() as root, T.quiet():
+        u = os.path.join(root, "u")
+        os.mkdir(u)
+        templates = {}
+        all_states = {}
+        base = []
+        with T.in_dir(u):
+            s = T.Session(cfg, ".")
+            s.start()
+            inj = T.FaultInjector()
+            for i in range(n):
+                e = i + 1
+                n0 = len(inj.events)
+                if e > prefix:
+                    with inj.installed():
+                        cont = s.epoch(cfg["train"][i], cfg["val"][i])
+                else:
+                    cont = s.epoch(cfg["train"][i], cfg["val"][i])
+                require(cont, "harness: a history built to run to its end stopped", e, n)
+                all_states[e] = T.snapshot(s.model, s.opt)
+                late = e >= prefix
+                base.append({"events": inj.events[n0:], "cont": cont, "csv": s.csv_bytes() if late else None,
+                             "snap": all_states[e], "files": s.files() if late else None,
+                             "info": T.canon_info(s.ctl.get_info(e))})
+                if late:
+                    vals = cfg["val"][:e]
+                    if cfg["keep"]:
+                        exp = _expected_files(cfg, vals)
+                        require(base[-1]["files"] == exp, "state directory after the completed update of epoch %d" % e,
+                                base[-1]["files"], exp)
+                    if e < n:
+                        templates[e] = os.path.join(root, "t%d" % e)
+                        shutil.copytree(".", templates[e])
+            del s
+
+        def prepare(cfg_, root_, e):
+            shutil.copytree(templates[e - 1], root_, dirs_exist_ok=True)
+            s2 = T.Session(cfg_, root_)
+            s2.start(scramble=3)
+            snap = T.snapshot(s2.model, s2.opt)
+            require(snap == all_states[e - 1], "state loaded by a script restarted on the files of epoch %d" % (e - 1), snap,
+                    all_states[e - 1])
+            return s2, {j: all_states[j] for j in range(1, e)}
+
+        idx = 0
+        for e in range(prefix + 1, n + 1):
+            ev = base[e - 1]["events"]
+            K = len(ev)
+            deletes = any(x[0] == "remove" for x in ev)
+            for k in range(K):
+                # the files after call k are the files before call k+1 (a crash is an exception at a call boundary),
+                # so "before every call" and "after the last one" visit every state once
+                for when in (("before", "after") if k == K - 1 else ("before",)):
+                    idx += 1
+                    d = os.path.join(root, "c%d" % idx)
+                    os.mkdir(d)
+                    with T.in_dir(d):
+                        f, stray = _crash_point(cfg, ".", base, e, k, when, prepare=prepare, sample=True)
+                    points += 1
+                    strays += stray
+                    inside = (k > 0 or when == "after") and (k < K - 1 or when == "before")
+                    if inside and deletes:
+                        interior_with_delete += 1
+                    if f is not None:
+                        failures.append(f)
+                    shutil.rmtree(d, ignore_errors=True)
+    stats = {"points": points, "interior_with_delete": interior_with_delete, "epochs": n, "base": base[prefix:], "strays": strays}
+    # _verdict indexes base by epoch for its message: give it the full list
+    stats["base"] = base
+    info = _verdict(cfg, failures, stats)
+    info.classes = [c for c in info.classes if c not in ("history_file_created", "stopped_early")]
+    info.classes.append("prefix_ge_998" if prefix >= 998 else "prefix_le_16" if prefix <= 16 else "prefix_30_to_256")
+    for t in (10, 100, 1000):
+        if prefix + 1 <= t <= n:
+            info.classes.append("epoch_number_gains_a_digit")
+    return info
+
+
+# ---------------------------------------------------------------- long crash-free runs: directory clause
+
+
+def _dir_sample(e, n):
+    return e <= 20 or e % 64 in (0, 1) or e >= n - 2 or any(abs(e - t) <= 1 for t in (32, 100, 128, 256, 1000, 1024, 2048))
+
+
+@st.composite
+def _dir_long_case(draw, tier):
+    cfg = _long_params(draw, 2100)
+    mix = _mix(cfg, draw(st.integers(0, 10 ** 6)))
+    cfg["keep"] = mix % 3 != 0
+    sizes = T.SIZES[:-1] if tier == "quick" else T.SIZES
+    if not cfg["keep"]:
+        sizes = tuple(x for x in sizes if x <= (257 if tier == "quick" else 1025))
+    cfg["n"] = sizes[(mix // 3) % len(sizes)]
+    return cfg
+
+
+@subcheck("C16", "crashfree_directory_long", lambda tier: _dir_long_case(tier), quick=16, thorough=400,
+          doc="crash-free runs of 15..1025 (thorough 2049) epochs expanded deterministically from <= 6 generated segments; "
+              "keep mode: after EVERY completed update the state directory holds exactly the files of the last and the best "
+              "epoch, and at sampled epochs (<= 20, every 64th and its successor, around 32/100/128/256/1000/1024, the last "
+              "three) a new controller loads the states saved for them; keep everything (<= 257 | 1025 epochs): at the "
+              "sampled epochs all files are present and a sample of epochs loads",
+          required_classes=["epochs_ge_1023", "keep_last_and_best", "keep_everything"], timeout_s=6000)
+def _dir_long_check(case):
+    cfg = dict(case)
+    cfg["val"], cfg["train"] = T.expand_history(case)
+    _domain(cfg)
+    n = cfg["n"]
+    classes = ["fmt_" + cfg["fmt"], "keep_last_and_best" if cfg["keep"] else "keep_everything", "model_" + cfg["model"]]
+    deletes = 0
+    with T.scratch() as root, T.quiet():
+        s = T.Session(cfg, root)
+        s.start()
+        states = {}
+        best, best_val = 0, T.INF
+        for i in range(n):
+            e = i + 1
+            cont = s.epoch(cfg["train"][i], cfg["val"][i])
+            require(cont, "harness: a history built to run to its end stopped", e, n)
+            if cfg["val"][i] < best_val:
+                best, best_val = e, cfg["val"][i]
+            snap = T.snapshot(s.model, s.opt)
+            if cfg["keep"]:
+                states = {j: v for j, v in states.items() if j == best}
+            states[e] = snap
+            sampled = _dir_sample(e, n)
+            if cfg["keep"]:
+                files = s.files()
+                exp = sorted(set(T.ckpt_names(cfg, e)) | set(T.ckpt_names(cfg, best)))
+                require(files == exp, "state directory after the completed update of epoch %d (keep_last_and_best_only)" % e,
+                        files, exp)
+                deletes += e > 1
+                to_load = sorted({e, best}) if sampled else []
+            elif sampled:
+                files = set(s.files())
+                to_load = _sample_epochs(e, best)
+                missing = [j for j in range(1, e + 1) if not set(T.ckpt_names(cfg, j)) <= files]
+                require(not missing, "checkpoint files missing after epoch %d (everything is kept)" % e, missing[:10], [])
+            else:
+                to_load = []
+            if to_load:
+                ctl = T.make_controller(cfg, s.csv, s.sdir)
+                require(ctl.get_best_epoch() == best, "best epoch of a controller built after epoch %d" % e, ctl.get_best_epoch(), best)
+                for j in to_load:
+                    got = _load_epoch(ctl, cfg, j, 40 + j % 64)
+                    require(got == states[j], "state loaded for epoch %d after the completed update of epoch %d" % (j, e), got,
+                            states[j])
+    classes += ["epochs_ge_%d" % t for t in (16, 128, 1023) if n >= t]
+    if best != n:
+        classes.append("best_differs_from_last")
+    return Info(nontrivial=cfg["keep"] and deletes > 0 and best != n, classes=classes)
+
+
 # ---------------------------------------------------------------- two crashes in a row (fault sequences)
 
 
@@ -415,8 +692,8 @@ def _double_strategy(tier):
           required_classes=["second_crash_in_repeated_update", "second_crash_later"], timeout_s=6000)
 def _double_check(case):
     cfg = case
-    _check_domain(cfg)
-    classes = ["keep_last_and_best" if cfg["keep"] else "keep_everything"]
+    _domain(cfg)
+    classes = ["keep_last_and_best" if cfg["keep"] else "keep_everything", "model_" + cfg.get("model", "plain")]
     with T.scratch() as root, T.quiet():
         u, d = os.path.join(root, "u"), os.path.join(root, "d")
         os.mkdir(u)
@@ -492,7 +769,8 @@ def _double_check(case):
 
 @st.composite
 def _dir_case(draw, tier):
-    cfg = draw(c15_config(8 if tier == "quick" else 12, fmts=("default", "custom", "subdir", "noepoch"), keep=None))
+    cfg = draw(c15_config(8 if tier == "quick" else 12, fmts=("default", "custom", "subdir", "noepoch", "noepoch", "info")
+                          + (("info_spec",) if ENABLE_INFO_SPEC_FMT else ()), keep=None))
     cfg["improving"] = draw(st.booleans())
     if cfg["fmt"] == "noepoch" and cfg["keep"] and cfg["improving"]:
         n = len(cfg["val"])
@@ -512,8 +790,9 @@ def _dir_strategy(tier):
           required_classes=["keep_last_and_best", "keep_everything", "refused_overwrite", "best_differs_from_last"])
 def _dir_check(case):
     cfg = case
-    _check_domain(cfg)
-    classes = ["fmt_" + cfg["fmt"], "keep_last_and_best" if cfg["keep"] else "keep_everything"]
+    _domain(cfg)
+    classes = ["fmt_" + cfg["fmt"], "keep_last_and_best" if cfg["keep"] else "keep_everything",
+               "model_" + cfg.get("model", "plain")]
     noepoch = not T.FMTS[cfg["fmt"]][2]
     vals = cfg["val"]
     with T.scratch() as root, T.quiet():
